@@ -32,6 +32,8 @@ PROOF_MSG = (
     "unable to prove assertion",
     "postcondition not satisfied at loop",
     "loop ensures not satisfied",
+    "type invariant not satisfied",
+    "may fail to meet its declared type invariant",
 )
 RESOURCE_MSG = ("rlimit exceeded", "resource limit", "solver timed out", "timed out", "while loop: Resource limit")
 
@@ -77,6 +79,9 @@ def classify(msg, spans, gen_text_lines):
                     return "functional"
         return "safety"
     if "postcondition not satisfied" in ml and "loop" not in ml:
+        return "functional"
+    if "unable to prove post-condition of closure" in ml or "unable to prove postcondition of closure" in ml:
+        # the contract of a closure (S7) states what the closure's real body computes
         return "functional"
     for s in PROOF_MSG:
         if s in ml:
